@@ -38,7 +38,7 @@ DECL = {
                  'Who': ('', 's'), 'BadRet': ('', 'i'), 'List1': ('i', 'ai'), 'List2': ('i', 'ai'), 'Struct1': ('i', '(i)'),
                  'Short': ('', 'is'), 'Long': ('', 'is')},
     'org.t.I2': {'Same': ('s', 's'), 'Who': ('', 's')},
-    'org.t.I0': {'Inherited': ('', 's')},
+    'org.t.I0': {'Inherited': ('', 's'), 'Same': ('i', 'i')},
     'org.freedesktop.DBus.Properties': {'Get': ('ss', 'v'), 'Set': ('ssv', ''), 'GetAll': ('s', 'a{sv}')},
 }
 ORDER = ['org.t.I1', 'org.t.I2', 'org.t.I0', 'org.freedesktop.DBus.Properties']
@@ -69,7 +69,7 @@ def _mk_world():
     from twisted.internet import defer
     I1 = DBusInterface('org.t.I1', *[Method(m, a, r) for m, (a, r) in DECL['org.t.I1'].items()], noRegister=True)
     I2 = DBusInterface('org.t.I2', Method('Same', 's', 's'), Method('Who', '', 's'), noRegister=True)
-    I0 = DBusInterface('org.t.I0', Method('Inherited', '', 's'), noRegister=True)
+    I0 = DBusInterface('org.t.I0', Method('Inherited', '', 's'), Method('Same', 'i', 'i'), noRegister=True)
 
     class NamedErr(Exception):
         dbusErrorName = 'org.t.Err.Named'
@@ -83,6 +83,13 @@ def _mk_world():
         def dbus_Inherited(self):
             self.log.append(('Inherited',))
             return 'base'
+
+        # a third binding of the shared member name, made by the base class for the base class's interface:
+        # the subclass has no binding at all for org.t.I0
+        @objects.dbusMethod('org.t.I0', 'Same')
+        def same_base(self, x):
+            self.log.append(('Same0', x))
+            return ~x
 
     class Obj(Base):
         dbusInterfaces = [I1, I2]
@@ -183,8 +190,6 @@ def _mk_world():
     h = objects.DBusObjectHandler(c)
     o = Obj('/obj')
     h.exportObject(o)
-    for cache in o._iterIFaceCaches():
-        pass
     # warm the lazily set per-method flags through the public entry point, one concrete call per member
     from txdbus import message as _m
     for iface_name, members in DECL.items():
@@ -254,7 +259,7 @@ def build(family, p):
         return Spec(h, [('S', int), ('er', bool)], witnesses=[(1, True), (2 ** 32 - 1, False)])
 
     if family == 'seq':
-        SEQ_IF = [None, 'org.t.I1', 'org.t.I2']
+        SEQ_IF = [None, 'org.t.I1', 'org.t.I2', 'org.t.I0']
         SEQ_MEM = ['Who', 'Same', 'Echo', 'List1', 'Struct1', 'Pair']
         sizes = [len(SEQ_IF), len(SEQ_MEM), len(SEQ_IF), len(SEQ_MEM)]
 
@@ -297,18 +302,19 @@ def build(family, p):
                     continue
                 x = 5 + k
                 want_log = {'Who': ('Who', SENDER) if found == 'org.t.I1' else ('Who2',),
-                            'Same': ('Same1', x) if found == 'org.t.I1' else ('Same2', 'arg'), 'Echo': ('Echo', x),
+                            'Same': {'org.t.I1': ('Same1', x), 'org.t.I2': ('Same2', 'arg'), 'org.t.I0': ('Same0', x)}[found],
+                            'Echo': ('Echo', x),
                             'List1': ('List1', x), 'Struct1': ('Struct1', x), 'Pair': ('Pair',)}[member]
                 check(obj.log == [want_log], 'the implementation bound to the addressed interface must run once with its arguments')
                 want_body = {'Who': [SENDER] if found == 'org.t.I1' else ['two'],
-                             'Same': [x] if found == 'org.t.I1' else ['arg!'], 'Echo': [x], 'List1': [[x]],
+                             'Same': {'org.t.I1': [x], 'org.t.I2': ['arg!'], 'org.t.I0': [~x]}[found], 'Echo': [x], 'List1': [[x]],
                              'Struct1': [[x]], 'Pair': [1, 2]}[member]
                 check(r._messageType == 2 and (r.signature or '') == DECL[found][member][1], 'reply kind / signature wrong')
                 pr = message.parseMessage(r.rawMessage, [])
                 check(pr.body == want_body, 'returned value differs from what the implementation returned')
         h.__name__ = 'seq'
         return Spec(h, [('code', int)], witnesses=[(encode_choice(w, sizes),) for w in
-                                                  ([1, 0, 2, 0], [2, 0, 1, 0], [0, 1, 2, 1], [1, 3, 1, 4], [0, 0, 0, 0])])
+                                                  ([1, 0, 2, 0], [2, 0, 1, 0], [0, 1, 2, 1], [1, 3, 1, 4], [0, 0, 0, 0], [3, 1, 1, 1], [2, 1, 3, 1])])
 
     path, iface = PATHS[p['pi']], IFACES[p['ii']]
 
@@ -361,7 +367,7 @@ def build(family, p):
             tag = obj.log[0][0]
             exp_tag = member
             if member == 'Same':
-                exp_tag = 'Same1' if found == 'org.t.I1' else 'Same2'
+                exp_tag = {'org.t.I1': 'Same1', 'org.t.I2': 'Same2', 'org.t.I0': 'Same0'}[found]
             if member == 'Who':
                 exp_tag = 'Who' if found == 'org.t.I1' else 'Who2'
             check(tag == exp_tag, 'the implementation bound to another interface/member ran')
@@ -377,7 +383,8 @@ def build(family, p):
                 check(len(replies) == 1, 'a call expecting a reply got none')
                 r = replies[0]
                 sigout = DECL[found][member][1]
-                ok_body = {'Echo': [x], 'Same': [x] if found == 'org.t.I1' else ['arg!'], 'Pair': [1, 2], 'Nothing': None,
+                ok_body = {'Echo': [x], 'Same': {'org.t.I1': [x], 'org.t.I2': ['arg!'], 'org.t.I0': [~x]}[found],
+                           'Pair': [1, 2], 'Nothing': None,
                            'Later': [x], 'Who': [SENDER] if found == 'org.t.I1' else ['two'], 'Inherited': ['base'],
                            'List1': [[x]], 'List2': [[x, x]], 'Struct1': [[x]]}
                 errs = {'Fail': ('org.txdbus.PythonException.ValueError', 'plain failure'),
